@@ -30,10 +30,10 @@ Definition tr_WriteHead (ty : Z) (tag : Z) (out : list N) : ctl (list N) (list N
         bindc (if (negb (Bool.eqb err false))
           then Return (out, err)
           else Next out)
-        (fun out : (list N) => 
+        (fun out : (list N) =>
         let out := out ++ (go_emit_u8 tag) in let err__ := false in
         Return (out, err__)))
-    (fun out : (list N) => 
+    (fun out : (list N) =>
     Next out).
 
 Definition k_codec_ZeroTag : Z := 12.
@@ -46,20 +46,20 @@ Definition tr_WriteInt8 (data : Z) (tag : Z) (out : list N) : ctl (list N) (list
         bindc (if (negb (Bool.eqb err false))
           then Return (out, err)
           else Next out)
-        (fun out : (list N) => 
+        (fun out : (list N) =>
         Next (out, err)))
       else go_call (tr_WriteHead k_codec_BYTE tag out) (fun r__ => let '(out, err) := r__ in
         bindc (if (negb (Bool.eqb err false))
           then Return (out, err)
           else Next out)
-        (fun out : (list N) => 
+        (fun out : (list N) =>
         let out := out ++ (go_emit_u8 (wrapU 8 data)) in let err := false in
         bindc (if (negb (Bool.eqb err false))
           then Return (out, err)
           else Next out)
-        (fun out : (list N) => 
+        (fun out : (list N) =>
         Next (out, err)))))
-    (fun st : (list N) * bool => let '(out, err) := st in 
+    (fun st : (list N) * bool => let '(out, err) := st in
     Return (out, false)).
 
 Definition k_math_MinInt8 : Z := (-128).
@@ -73,20 +73,20 @@ Definition tr_WriteInt16 (data : Z) (tag : Z) (out : list N) : ctl (list N) (lis
         bindc (if (negb (Bool.eqb err false))
           then Return (out, err)
           else Next out)
-        (fun out : (list N) => 
+        (fun out : (list N) =>
         Next (out, err)))
       else go_call (tr_WriteHead k_codec_SHORT tag out) (fun r__ => let '(out, err) := r__ in
         bindc (if (negb (Bool.eqb err false))
           then Return (out, err)
           else Next out)
-        (fun out : (list N) => 
+        (fun out : (list N) =>
         let out := out ++ (go_emit_u16 (wrapU 16 data)) in let err := false in
         bindc (if (negb (Bool.eqb err false))
           then Return (out, err)
           else Next out)
-        (fun out : (list N) => 
+        (fun out : (list N) =>
         Next (out, err)))))
-    (fun st : (list N) * bool => let '(out, err) := st in 
+    (fun st : (list N) * bool => let '(out, err) := st in
     Return (out, false)).
 
 Definition k_math_MinInt16 : Z := (-32768).
@@ -100,20 +100,20 @@ Definition tr_WriteInt32 (data : Z) (tag : Z) (out : list N) : ctl (list N) (lis
         bindc (if (negb (Bool.eqb err false))
           then Return (out, err)
           else Next out)
-        (fun out : (list N) => 
+        (fun out : (list N) =>
         Next (out, err)))
       else go_call (tr_WriteHead k_codec_INT tag out) (fun r__ => let '(out, err) := r__ in
         bindc (if (negb (Bool.eqb err false))
           then Return (out, err)
           else Next out)
-        (fun out : (list N) => 
+        (fun out : (list N) =>
         let out := out ++ (go_emit_u32 (wrapU 32 data)) in let err := false in
         bindc (if (negb (Bool.eqb err false))
           then Return (out, err)
           else Next out)
-        (fun out : (list N) => 
+        (fun out : (list N) =>
         Next (out, err)))))
-    (fun st : (list N) * bool => let '(out, err) := st in 
+    (fun st : (list N) * bool => let '(out, err) := st in
     Return (out, false)).
 
 Definition k_math_MinInt32 : Z := (-2147483648).
@@ -127,20 +127,20 @@ Definition tr_WriteInt64 (data : Z) (tag : Z) (out : list N) : ctl (list N) (lis
         bindc (if (negb (Bool.eqb err false))
           then Return (out, err)
           else Next out)
-        (fun out : (list N) => 
+        (fun out : (list N) =>
         Next (out, err)))
       else go_call (tr_WriteHead k_codec_LONG tag out) (fun r__ => let '(out, err) := r__ in
         bindc (if (negb (Bool.eqb err false))
           then Return (out, err)
           else Next out)
-        (fun out : (list N) => 
+        (fun out : (list N) =>
         let out := out ++ (go_emit_u64 (wrapU 64 data)) in let err := false in
         bindc (if (negb (Bool.eqb err false))
           then Return (out, err)
           else Next out)
-        (fun out : (list N) => 
+        (fun out : (list N) =>
         Next (out, err)))))
-    (fun st : (list N) * bool => let '(out, err) := st in 
+    (fun st : (list N) * bool => let '(out, err) := st in
     Return (out, false)).
 
 Definition k_endpoint_EStaticWeight : Z := 1.
@@ -166,7 +166,7 @@ Record go_endpoint_Endpoint := { go_endpoint_Endpoint_Host : (list N);
 Definition tr_BSWL_range (endpoints : (list go_endpoint_Endpoint)) : ctl (Z * Z * Z * Z) (list Z) :=
   let maxRange : Z := 0 in let totalWeight : Z := 0 in
     let '(minWeight, maxWeight) := (k_math_MaxInt32, k_math_MinInt32) in
-    bindc (go_range endpoints (fun (_ : Z) (node : go_endpoint_Endpoint) => fun st : Z * Z => let '(minWeight, maxWeight) := st in 
+    bindc (go_range endpoints (fun (_ : Z) (node : go_endpoint_Endpoint) => fun st : Z * Z => let '(minWeight, maxWeight) := st in
       if (negb ((go_endpoint_Endpoint_WeightType node) =? k_endpoint_EStaticWeight))
       then Return (@nil Z)
       else let weight := (go_endpoint_Endpoint_Weight node) in
@@ -174,14 +174,14 @@ Definition tr_BSWL_range (endpoints : (list go_endpoint_Endpoint)) : ctl (Z * Z 
         then let maxWeight := weight in
           Next maxWeight
         else Next maxWeight)
-      (fun maxWeight : Z => 
+      (fun maxWeight : Z =>
       bindc (if (weight <? minWeight)
         then let minWeight := weight in
           Next minWeight
         else Next minWeight)
-      (fun minWeight : Z => 
+      (fun minWeight : Z =>
       Next (minWeight, maxWeight)))) (minWeight, maxWeight))
-    (fun st : Z * Z => let '(minWeight, maxWeight) := st in 
+    (fun st : Z * Z => let '(minWeight, maxWeight) := st in
     if (maxWeight <=? 0)
     then Return (@nil Z)
     else bindc (if (0 <? minWeight)
@@ -190,16 +190,16 @@ Definition tr_BSWL_range (endpoints : (list go_endpoint_Endpoint)) : ctl (Z * Z 
           then let maxRange := k_selector_minStaticWeightLimit in
             Next maxRange
           else Next maxRange)
-        (fun maxRange : Z => 
+        (fun maxRange : Z =>
         bindc (if (k_selector_maxStaticWeightLimit <? maxRange)
           then let maxRange := k_selector_maxStaticWeightLimit in
             Next maxRange
           else Next maxRange)
-        (fun maxRange : Z => 
+        (fun maxRange : Z =>
         Next (maxRange, totalWeight)))) else Panic
       else let '(maxRange, totalWeight) := (1, 1) in
         Next (maxRange, totalWeight))
-    (fun st : Z * Z => let '(maxRange, totalWeight) := st in 
+    (fun st : Z * Z => let '(maxRange, totalWeight) := st in
     Next (maxRange, totalWeight, minWeight, maxWeight))).
 
 Definition k_tars_failInterval : Z := 5.
@@ -218,20 +218,20 @@ Definition tr_checkActive (c_failCount : Z) (c_lastFailCount : Z) (c_status : bo
             let c_lastBlockTime := now in
             Return (true, false, c_status, c_lastBlockTime)
           else Next (c_status, c_lastBlockTime))
-        (fun st : bool * Z => let '(c_status, c_lastBlockTime) := st in 
+        (fun st : bool * Z => let '(c_status, c_lastBlockTime) := st in
         bindc (if (k_tars_checkTime <=? (wrapS 64 (now - c_lastCheckTime)))
           then let c_lastBlockTime := now in
             bindc (if (if (k_tars_overN <=? c_failCount) then ratio_ge else false)
               then let c_status := false in
                 Return (true, false, c_status, c_lastBlockTime)
               else Next c_status)
-            (fun c_status : bool => 
+            (fun c_status : bool =>
             Return (false, false, c_status, c_lastBlockTime))
           else Next (c_status, c_lastBlockTime))
-        (fun st : bool * Z => let '(c_status, c_lastBlockTime) := st in 
+        (fun st : bool * Z => let '(c_status, c_lastBlockTime) := st in
         Return (false, false, c_status, c_lastBlockTime)))
       else Next (c_status, c_lastBlockTime))
-    (fun st : bool * Z => let '(c_status, c_lastBlockTime) := st in 
+    (fun st : bool * Z => let '(c_status, c_lastBlockTime) := st in
     bindc (if (k_tars_tryTimeInterval <=? (wrapS 64 (now - c_lastBlockTime)))
       then let c_lastBlockTime := now in
         let err := reconnect_err in
@@ -239,7 +239,7 @@ Definition tr_checkActive (c_failCount : Z) (c_lastFailCount : Z) (c_status : bo
         then Return (false, false, c_status, c_lastBlockTime)
         else Return (false, true, c_status, c_lastBlockTime)
       else Next c_lastBlockTime)
-    (fun c_lastBlockTime : Z => 
+    (fun c_lastBlockTime : Z =>
     Return (false, false, c_status, c_lastBlockTime))).
 
 (* struct github.com/TarsCloud/TarsGo/tars/selector.pair *)
@@ -251,7 +251,7 @@ Definition tr_BSWL_scale (endpoints : (list go_endpoint_Endpoint)) (maxRange : Z
   let weightToId : (list go_selector_pair) := (@nil go_selector_pair) in
     let idToWeight := (@nil (Z * Z)) in
     if (andb (0 <=? 0) (0 <=? (go_len endpoints))) then (let staticWeightRouterCache := (go_make 0 0) in
-    bindc (go_range endpoints (fun (idx : Z) (node : go_endpoint_Endpoint) => fun st : Z * (list go_selector_pair) * (list (Z * Z)) * (list Z) => let '(totalWeight, weightToId, idToWeight, staticWeightRouterCache) := st in 
+    bindc (go_range endpoints (fun (idx : Z) (node : go_endpoint_Endpoint) => fun st : Z * (list go_selector_pair) * (list (Z * Z)) * (list Z) => let '(totalWeight, weightToId, idToWeight, staticWeightRouterCache) := st in
       if (negb (maxWeight =? 0)) then (let weight := (wrapS 64 (Z.quot (wrapS 64 ((go_endpoint_Endpoint_Weight node) * maxRange)) maxWeight)) in
       bindc (if (0 <? weight)
         then let totalWeight := (wrapS 64 (totalWeight + weight)) in
@@ -262,9 +262,9 @@ Definition tr_BSWL_scale (endpoints : (list go_endpoint_Endpoint)) (maxRange : Z
           Next (totalWeight, weightToId, idToWeight, staticWeightRouterCache)
         else let staticWeightRouterCache := staticWeightRouterCache ++ [idx] in
           Next (totalWeight, weightToId, idToWeight, staticWeightRouterCache))
-      (fun st : Z * (list go_selector_pair) * (list (Z * Z)) * (list Z) => let '(totalWeight, weightToId, idToWeight, staticWeightRouterCache) := st in 
+      (fun st : Z * (list go_selector_pair) * (list (Z * Z)) * (list Z) => let '(totalWeight, weightToId, idToWeight, staticWeightRouterCache) := st in
       Next (totalWeight, weightToId, idToWeight, staticWeightRouterCache))) else Panic) (totalWeight, weightToId, idToWeight, staticWeightRouterCache))
-    (fun st : Z * (list go_selector_pair) * (list (Z * Z)) * (list Z) => let '(totalWeight, weightToId, idToWeight, staticWeightRouterCache) := st in 
+    (fun st : Z * (list go_selector_pair) * (list (Z * Z)) * (list Z) => let '(totalWeight, weightToId, idToWeight, staticWeightRouterCache) := st in
     Next (totalWeight, weightToId, idToWeight, staticWeightRouterCache))) else Panic.
 
 (* tars/util/endpoint/parse.go: func Parse, statements "isTcp := int32(0)" .. "e := Endpoint{" *)
@@ -278,14 +278,14 @@ Definition tr_Parse_build (proto : (list N)) (host : (list N)) (bind : (list N))
             let isTcp := 2 in
             Next (proto, isTcp)
           else Next (proto, isTcp))
-        (fun st : (list N) * Z => let '(proto, isTcp) := st in 
+        (fun st : (list N) * Z => let '(proto, isTcp) := st in
         Next (proto, isTcp)))
-    (fun st : (list N) * Z => let '(proto, isTcp) := st in 
+    (fun st : (list N) * Z => let '(proto, isTcp) := st in
     bindc (if (if (negb (weightType =? 0)) then (if (weight =? (-1)) then true else (100 <? weight)) else false)
       then let weight := 100 in
         Next weight
       else Next weight)
-    (fun weight : Z => 
+    (fun weight : Z =>
     let e := {|
       go_endpoint_Endpoint_Host := host;
       go_endpoint_Endpoint_Port := (wrapS 32 port);
